@@ -162,6 +162,119 @@ fn eval_impl(text: &str) -> Result<Result<V, String>, String> {
     Err("neither PRINT reached nor an error reported".into())
 }
 
+
+/// An undecorated or decorated numeric literal in one of the documented forms, with the type and value
+/// the manual's six rules (chapter 1, in order) give it. None = the rules collide (E exponent with more
+/// than 7 digits) or the form is not documented.
+fn literal_case(rng: &mut Rng) -> (String, Option<V>) {
+    let nd = *rng.pick(&[1usize, 2, 3, 4, 5, 6, 7, 7, 8, 9, 12, 16]);
+    let mut digits = String::new();
+    for i in 0..nd {
+        let d = if i == 0 { rng.range(1, 9) } else { rng.range(0, 9) };
+        digits.push(char::from(b'0' + d as u8));
+    }
+    if rng.chance(1, 10) {
+        digits = rng.pick(&["32767", "32768", "9999999", "10000000", "0", "00012", "65535", "16777217"]).to_string();
+    }
+    let mut text = digits.clone();
+    let mut has_dot = false;
+    if rng.chance(2, 5) {
+        let at = rng.usize(digits.len() + 1);
+        text = format!("{}.{}", &digits[..at], &digits[at..]);
+        has_dot = true;
+    }
+    let ndig = digits.len();
+    let mut exp: Option<char> = None;
+    if rng.chance(2, 5) {
+        let letter = *rng.pick(&['E', 'e', 'D', 'd', 'E', 'E']);
+        let sign = *rng.pick(&["", "+", "-", "-", "+"]);
+        let e = *rng.pick(&[0i32, 1, 2, 5, 9, 10, 12, 20]);
+        text.push(letter);
+        text.push_str(sign);
+        text.push_str(&e.to_string());
+        exp = Some(letter.to_ascii_uppercase());
+    }
+    let suffix = *rng.pick(&["", "", "", "", "!", "#", "%"]);
+    if suffix == "%" && (has_dot || exp.is_some() || digits.parse::<i32>().map(|n| n > 32767).unwrap_or(true)) {
+        // an Integer decorator on something that is not a small whole number is not documented
+        return (format!("{}{}", text, suffix), None);
+    }
+    text.push_str(suffix);
+    // the numeric value: the decimal the text denotes (D is an exponent letter like E)
+    let plain: String = text.trim_end_matches(['!', '#', '%']).replace(['D', 'd'], "E");
+    let ty = match suffix {
+        "!" => Some(mv::Ty::S),
+        "#" => Some(mv::Ty::D),
+        "%" => Some(mv::Ty::I),
+        _ => {
+            if exp == Some('D') {
+                Some(mv::Ty::D)
+            } else if exp == Some('E') {
+                if ndig > 7 {
+                    None
+                } else {
+                    Some(mv::Ty::S)
+                }
+            } else if has_dot {
+                Some(if ndig > 7 { mv::Ty::D } else { mv::Ty::S })
+            } else if ndig > 7 {
+                Some(mv::Ty::D)
+            } else if digits.parse::<i32>().map(|n| n <= 32767).unwrap_or(false) {
+                Some(mv::Ty::I)
+            } else {
+                Some(mv::Ty::S)
+            }
+        }
+    };
+    let v = match ty {
+        None => None,
+        Some(mv::Ty::I) => plain.parse::<i16>().ok().map(V::I),
+        Some(mv::Ty::S) => plain.parse::<f32>().ok().map(V::S),
+        Some(mv::Ty::D) => plain.parse::<f64>().ok().map(V::D),
+        Some(mv::Ty::Str) => None,
+    };
+    // a decorated literal with a D exponent and `!`, or E exponent and `#`: decorator wins (documented),
+    // but more than 7 digits with `!` is the same loss of precision as an assignment
+    (text, v)
+}
+
+const FUNCS: [&str; 8] = ["ABS", "SGN", "INT", "FIX", "CINT", "CSNG", "CDBL", "SQR"];
+
+/// Documented value (and, where the manual fixes it, type) of a numeric function.
+fn model_fn(name: &str, v: &V) -> (mv::MR<V>, mv::Tol) {
+    use mv::Tol;
+    let x = match v.as_f64() {
+        Some(x) => x,
+        None => return (mv::err(mv::Code::TypeMismatch), Tol::Exact),
+    };
+    match name {
+        "ABS" => match v {
+            V::I(n) => (n.checked_abs().map(V::I).ok_or(MErr::Code(mv::Code::Overflow)), Tol::Exact),
+            V::S(a) => (Ok(V::S(a.abs())), Tol::Exact),
+            _ => (Ok(V::D(x.abs())), Tol::Exact),
+        },
+        "SGN" => (Ok(V::I(if x > 0.0 { 1 } else if x < 0.0 { -1 } else { 0 })), Tol::ValueOnly),
+        "INT" => (Ok(V::D(x.floor())), Tol::ValueOnly),
+        "FIX" => (Ok(V::D(x.trunc())), Tol::ValueOnly),
+        "CINT" => (mv::to_int(v).map(V::I), Tol::Exact),
+        "CSNG" => match mv::assign(mv::Ty::S, v) {
+            Ok(r) => (Ok(r), Tol::Exact),
+            Err(e) => (Err(e), Tol::Exact),
+        },
+        "CDBL" => (Ok(V::D(x)), Tol::Exact),
+        _ => {
+            // SQR: exact for perfect squares, otherwise correctly rounded in the operand's precision
+            if x < 0.0 {
+                return (Err(MErr::Unspec), Tol::Loose);
+            }
+            match v {
+                V::D(_) => (Ok(V::D(x.sqrt())), Tol::Loose),
+                _ => (Ok(V::S((x as f32).sqrt())), Tol::Loose),
+            }
+        }
+    }
+}
+
 fn has_nan_or_inf(v: &V) -> bool {
     match v {
         V::S(x) => !x.is_finite(),
@@ -192,6 +305,9 @@ impl Prop for C02 {
     }
 
     fn run_case(&mut self, idx: u64, rng: &mut Rng, ctx: &mut Ctx) {
+        if idx % 8 == 7 {
+            return self.literal_or_function(idx, rng, ctx);
+        }
         let x = if idx % 3 == 0 {
             // matrix entry
             let k = (idx / 3) as usize;
@@ -208,7 +324,21 @@ impl Prop for C02 {
             let lt = (k / 18) % 4;
             let rt = (k / 72) % 4;
             let l = want_ty(lt, rng);
-            let r = want_ty(rt, rng);
+            let mut r = want_ty(rt, rng);
+            // relational operators: every second visit compares numerically equal values of the two types
+            if op.level() == 7 && lt < 3 && rt < 3 && rng.coin() {
+                let whole = *rng.pick(&[0i16, 1, 2, 5, 7, 100, 255, 32767]);
+                let mk = |t: usize| match t {
+                    0 => V::I(whole),
+                    1 => V::S(whole as f32),
+                    _ => V::D(whole as f64),
+                };
+                let l2 = mk(lt);
+                r = mk(rt);
+                ctx.count("relational_equal_value_pairs");
+                let x = X::Bin(Box::new(X::Lit(l2)), op, Box::new(X::Lit(r)));
+                return self.judge_tree(x, rng, ctx);
+            }
             ctx.cover("operator_type_matrix", &format!("{} {}x{}", op.text(), ["I", "S", "D", "$"][lt], ["I", "S", "D", "$"][rt]));
             if (k / 288) % 4 == 3 {
                 X::Un(*rng.pick(&[UnOp::Neg, UnOp::Not, UnOp::Pos]), Box::new(X::Lit(l)))
@@ -219,6 +349,113 @@ impl Prop for C02 {
             let strings = rng.chance(1, 5);
             gen(rng, 3, strings)
         };
+        self.judge_tree(x, rng, ctx)
+    }
+}
+
+impl C02 {
+    /// Literal typing rules and numeric functions: the typed value on the stack at PRINT.
+    fn literal_or_function(&self, idx: u64, rng: &mut Rng, ctx: &mut Ctx) {
+        if (idx / 8) % 2 == 0 {
+            let (text, want) = literal_case(rng);
+            mon::journal(&format!("PRINT {}", text));
+            let got = match eval_impl(&text) {
+                Ok(g) => g,
+                Err(e) => {
+                    ctx.violation("harness", "expr:harness", &format!("could not observe the value of {:?}: {}", text, e), &text);
+                    return;
+                }
+            };
+            ctx.eval(&format!("literal {}", text), want.is_some());
+            ctx.count("literals_typed");
+            let want = match want {
+                Some(w) => w,
+                None => {
+                    ctx.count("discarded_unspecified_literal");
+                    return;
+                }
+            };
+            if has_nan_or_inf(&want) {
+                ctx.count("discarded_inf_nan");
+                return;
+            }
+            ctx.cover("literal_types_seen", &format!("{:?}", want.ty()));
+            match got {
+                Ok(g) => {
+                    if !mv::same(&want, &g, mv::Tol::Exact) {
+                        ctx.violation(
+                            "literal-type",
+                            &format!("expr:literal:{:?}-as-{:?}", want.ty(), g.ty()),
+                            &format!("the literal {} is {} by the manual's typing rules, the interpreter makes it {}", text, want.show(), g.show()),
+                            &format!("PRINT {}", text),
+                        );
+                    }
+                }
+                Err(e) => ctx.violation(
+                    "literal-error",
+                    "expr:literal-error",
+                    &format!("the literal {} ({}) raises {}", text, want.show(), e),
+                    &format!("PRINT {}", text),
+                ),
+            }
+        } else {
+            let name = FUNCS[rng.usize(FUNCS.len())];
+            let arg = loop {
+                let l = match rng.usize(6) {
+                    0 => V::I(*rng.pick(&[0i16, 1, -1, 9, -9, 16, 32767, -32767, 144])),
+                    1 => V::S(*rng.pick(&[0.0f32, 0.5, -0.5, 2.5, -2.5, 9.9, -9.9, 16.0, 32767.5, -32768.5, 1e10, 144.0, 0.25])),
+                    2 => V::D(*rng.pick(&[0.0f64, 0.5, -0.5, 2.5, -2.5, 9.9, -9.9, 25.0, 32767.9, -32768.0, -32768.1, 1e15, 1e-9, 0.1])),
+                    3 => V::I(rng.range(-32767, 32767) as i16),
+                    4 => V::S(((rng.f64() - 0.5) * 70000.0) as f32),
+                    _ => V::D((rng.f64() - 0.5) * 70000.0),
+                };
+                break l;
+            };
+            // negative literals are written as 0-x so that unary minus is not part of the case
+            let arg_text = match &arg {
+                V::I(n) if *n < 0 => format!("(0%-{}%)", -(*n as i32)),
+                V::S(x) if *x < 0.0 => format!("(0!-{})", lit_text(&V::S(-x))),
+                V::D(x) if *x < 0.0 => format!("(0#-{})", lit_text(&V::D(-x))),
+                other => lit_text(other),
+            };
+            let text = format!("{}({})", name, arg_text);
+            mon::journal(&format!("PRINT {}", text));
+            let (want, tol) = model_fn(name, &arg);
+            let got = match eval_impl(&text) {
+                Ok(g) => g,
+                Err(e) => {
+                    ctx.violation("harness", "expr:harness", &format!("could not observe the value of {:?}: {}", text, e), &text);
+                    return;
+                }
+            };
+            ctx.eval(&text, true);
+            ctx.count("function_calls_checked");
+            ctx.cover("functions_called", name);
+            match (&want, &got) {
+                (Err(MErr::Unspec), _) => ctx.count("discarded_unspecified"),
+                (Ok(w), Ok(g)) => {
+                    if !mv::same(w, g, tol) {
+                        ctx.violation(
+                            "wrong-function-value",
+                            &format!("expr:function:{}", name),
+                            &format!("{} leaves {} on the stack; documented result {}{}", text, g.show(), w.show(), if tol == mv::Tol::ValueOnly { " (value only)" } else { "" }),
+                            &format!("PRINT {}", text),
+                        );
+                    }
+                }
+                (Ok(w), Err(e)) => ctx.violation("spurious-error", &format!("expr:function-error:{}", name), &format!("{} raises {}; documented result {}", text, e, w.show()), &format!("PRINT {}", text)),
+                (Err(MErr::Code(c)), Err(e)) => {
+                    if c.name() != e {
+                        ctx.violation("wrong-error", &format!("expr:function-wrong-error:{}", name), &format!("{} raises {}; expected {}", text, e, c.name()), &format!("PRINT {}", text));
+                    }
+                }
+                (Err(_), Err(_)) => {}
+                (Err(_), Ok(g)) => ctx.violation("missing-error", &format!("expr:function-missing-error:{}", name), &format!("{} yields {}; expected an error", text, g.show()), &format!("PRINT {}", text)),
+            }
+        }
+    }
+
+    fn judge_tree(&self, x: X, rng: &mut Rng, ctx: &mut Ctx) {
         let min = render_min(&x, 0, false);
         let full = render_full(&x);
         if min.len() > 900 {
